@@ -332,9 +332,12 @@ def url_values(cfg, seq):
         else:
             # also values that begin / end with characters a careless converter strips
             # (%2541: after the server's ONE decoding the segment still reads %41 -- and stays that way)
-            pre = ['', '+', '++', '-', '.', '~', '%2B', ' ', '_', '%2541', '100%25'][(seq + len(u)) % 11]
+            # (e%CC%81 / %E2%84%AA: valid text that is not in a Unicode normal form -- decomposed e-acute, KELVIN SIGN --
+            # arrives code point for code point)
+            pre = ['', '+', '++', '-', '.', '~', '%2B', ' ', '_', '%2541', '100%25', 'e%CC%81', '%E2%84%AA'][(seq + len(u)) % 13]
             raw = '%sv%d%s%s' % (pre, seq, u, ['', '+', '.'][seq % 3])
-            vals[u] = raw.replace('%2B', '+').replace('%2541', '%41').replace('%25', '%')
+            vals[u] = (raw.replace('%2B', '+').replace('%2541', '%41').replace('%25', '%').replace('e%CC%81', 'e\u0301')
+                       .replace('%E2%84%AA', '\u212a'))
             segs.append(raw.replace(' ', '%20'))
     return vals, '/' + '/'.join(segs)
 
